@@ -149,7 +149,10 @@ THEOREMS = {
            [("QuartzModel.Theorems.C10Locks", "LockOrder." + t) for t in ["good_step", "C10_lock_order_no_deadlock", "C10_lock_order_reachable",
                                                                          "C10_recursive_rlock_deadlocks", "C10_reverse_order_deadlocks", "blCheck_sound", "C10_mutual_exclusion"]] +
            [("QuartzModel.Theorems.C10LockFacts", "LockOrder." + t) for t in ["C10_lock_shapes_good", "C10_lock_shapes_cover", "C10_no_lock_deadlock_code"]] +
-           [("QuartzModel.Theorems.MissingMtx", "Facts.missing_none_mtx")],
+           [("QuartzModel.Theorems.MissingMtx", "Facts.missing_none_mtx")] +
+           # "once Wait returns every goroutine the scheduler created has exited": the execution loop must not be able to block for ever inside its
+           # dispatch step, where the only channel operation is the offer to MisfiredChan: a `select` with a `default` (regenerated fact and translated validateJob)
+           [("QuartzModel.Theorems.SchedFacts", "Sched.misfire_offer_nonblocking")] + _ts("trans_sched_nothing_missing", "trans_validateJob"),
     "C14": [("QuartzModel.Theorems.C14", "Cron." + t) for t in [
         "C14_sound", "C14_no_miss", "C14_expiry", "C14_terminates", "C14_exact_away_from_transitions", "C14_exact_is_least",
         "C14_chain_increasing", "C14_fixed_zone_is_special_case", "C14_total", "C14_reading_advances", "C14_result_reading",
